@@ -644,6 +644,8 @@ def runOp (op : String) (args : List String) : String :=
               | some none => "no-rdata"
               | none => "none"))
       | none => "bad-op")
+  | "type.print", [n] => hex (TextCodec.printType (n.toNat?.getD 0))
+  | "class.print", [n] => hex (TextCodec.printClass (n.toNat?.getD 0))
   | "codec.unpack", [typ, rd] => codecUnpack typ rd
   | "len.rr", typ :: owner :: toks => lenRROp typ owner toks
   | "msg.len", [m] =>
